@@ -17,7 +17,8 @@ GeoJsonKinds == {"Point", "LineString", "Polygon", "MultiPoint", "MultiLineStrin
 
 (* ------------------------------- Req ------------------------------------ *)
 \* <<start, low, end, high>>: min/max over the coordinates; time-only kinds span the full band
-B(g) == Bounds(g, FMAXT)
+B2(g, fm) == Bounds(g, fm)             \* fm = MAX_FREQUENCY in the frequency ticks of the case
+B(g) == B2(g, FMAXT)
 
 \* the features and the values the statement gives them
 FeatOf(g, b) == [duration |-> b[3] - b[1], low_freq |-> b[2], high_freq |-> b[4], bandwidth |-> b[4] - b[2], num_segments |-> NumParts(g)]
@@ -82,10 +83,10 @@ Close(r) == IF r[1] = r[Len(r)] /\ Len(r) >= 4 THEN r ELSE Append(r, r[1])
 \* shapely.geometry.box(minx, miny, maxx, maxy): counter-clockwise from (maxx, miny)
 BoxRing(s, l, e, h) == Close(<<<<e, l>>, <<e, h>>, <<s, h>>, <<s, l>>>>)
 \* conversion.py: one function per type
-ImplShape(g) ==
+ImplShape2(g, fm) ==
     LET c == g.coordinates IN
-    CASE g.type = "TimeStamp"    -> [kind |-> "LineString", parts |-> << << <<<<c, 0>>, <<c, FMAXT>>>> >> >>]
-      [] g.type = "TimeInterval" -> [kind |-> "Polygon", parts |-> << <<BoxRing(c[1], 0, c[2], FMAXT)>> >>]
+    CASE g.type = "TimeStamp"    -> [kind |-> "LineString", parts |-> << << <<<<c, 0>>, <<c, fm>>>> >> >>]
+      [] g.type = "TimeInterval" -> [kind |-> "Polygon", parts |-> << <<BoxRing(c[1], 0, c[2], fm)>> >>]
       [] g.type = "BoundingBox"  -> [kind |-> "Polygon", parts |-> << <<BoxRing(c[1], c[2], c[3], c[4])>> >>]
       [] g.type = "Point"        -> [kind |-> "Point", parts |-> << << <<c>> >> >>]
       [] g.type = "LineString"   -> [kind |-> "LineString", parts |-> << <<c>> >>]
@@ -93,6 +94,7 @@ ImplShape(g) ==
       [] g.type = "MultiPoint"   -> [kind |-> "MultiPoint", parts |-> [i \in DOMAIN c |-> << <<c[i]>> >>]]
       [] g.type = "MultiLineString" -> [kind |-> "MultiLineString", parts |-> [i \in DOMAIN c |-> <<c[i]>>]]
       [] g.type = "MultiPolygon" -> [kind |-> "MultiPolygon", parts |-> [i \in DOMAIN c |-> [j \in DOMAIN c[i] |-> Close(c[i][j])]]]
+ImplShape(g) == ImplShape2(g, FMAXT)
 \* operations.compute_bounds: the bounds of the converted shape; shapely takes a polygon's envelope from its SHELL
 EnvVerts(sh) == IF sh.kind \in {"Polygon", "MultiPolygon"}
                 THEN UNION {PathVerts(sh.parts[i][1]) : i \in DOMAIN sh.parts}
@@ -133,7 +135,50 @@ ImplAnchor2(pos, sb) ==
 (*   fixed-shape placeholder in its field)]                                *)
 (* Off-lattice values arrive as the integer -777777 (never an expected one)*)
 (***************************************************************************)
-Clauses == {"NoRaise", "BoundsExact", "ShapelyKind", "ShapelyCoords", "FeaturesPresent", "FeatureValues",
+(***************************************************************************)
+(* DECIMAL cases.  On the dyadic lattice every double is a tick and the    *)
+(* clauses above are exact.  Coordinates such as 0.3 s or 1234.56 Hz are   *)
+(* no ticks of a dyadic unit; for them a case carries o.in.dec = <<[tq,    *)
+(* fq]>> (time = tick / tq seconds, frequency = tick / fq hertz, one       *)
+(* correctly rounded division each) and o.out.steps[i].dec = <<d>> with    *)
+(*   d.tmap, d.fmap : <<<<tick, float.hex() of the double handed in>>..>>  *)
+(*   d.bhex, d.blimbs : compute_bounds as hex strings / limb numbers       *)
+(*   d.ahex, d.alimbs : the nine named positions, <<time, frequency>> each *)
+(* What is demanded: the bounds ARE four of the coordinates' doubles; a    *)
+(* corner / edge coordinate of a named position IS a bound (the same       *)
+(* double: no rounding can excuse a difference); a midpoint lies within    *)
+(* the bounds and within 2^-32 / q of the exact rational midpoint.         *)
+(***************************************************************************)
+FMAXHZ  == 5000000
+HexZero == "0x0.0p+0"
+HexFmax == "0x1.312d000000000p+22"                  \* float(5000000).hex()
+Lookup(map, k) == IF \E i \in DOMAIN map : map[i][1] = k THEN map[CHOOSE i \in DOMAIN map : map[i][1] = k][2] ELSE "?"
+DecFm(dc) == FMAXHZ * dc.fq                          \* MAX_FREQUENCY in the case's frequency ticks
+DecClauses == {"DecNoRaise", "DecBoundsExact", "CornerIsBound", "MidpointInside", "MidpointNear"}
+HoldsD(cl, g, dc, d) ==
+    LET b == B2(g, DecFm(dc))
+        HexT(k) == Lookup(d.tmap, k)
+        HexF(k) == IF g.type \in TimeOnlyKinds THEN (IF k = 0 THEN HexZero ELSE HexFmax) ELSE Lookup(d.fmap, k)
+        sel(i)  == Sel(Positions[i])                 \* <<frequency selector, time selector>>
+    IN
+    CASE cl = "DecNoRaise"     -> d.raised = <<>>
+      [] cl = "DecBoundsExact" -> d.bhex = <<HexT(b[1]), HexF(b[2]), HexT(b[3]), HexF(b[4])>>
+      [] cl = "CornerIsBound"  -> /\ Len(d.ahex) = Len(Positions)
+                                  /\ \A i \in DOMAIN Positions :
+                                        /\ sel(i)[2] = "left"   => d.ahex[i][1] = d.bhex[1]
+                                        /\ sel(i)[2] = "right"  => d.ahex[i][1] = d.bhex[3]
+                                        /\ sel(i)[1] = "bottom" => d.ahex[i][2] = d.bhex[2]
+                                        /\ sel(i)[1] = "top"    => d.ahex[i][2] = d.bhex[4]
+      [] cl = "MidpointInside" -> /\ Len(d.alimbs) = Len(Positions)
+                                  /\ \A i \in DOMAIN Positions :
+                                        /\ sel(i)[2] = "center" => LLe(d.blimbs[1], d.alimbs[i][1]) /\ LLe(d.alimbs[i][1], d.blimbs[3])
+                                        /\ sel(i)[1] = "center" => LLe(d.blimbs[2], d.alimbs[i][2]) /\ LLe(d.alimbs[i][2], d.blimbs[4])
+      [] cl = "MidpointNear"   -> /\ Len(d.alimbs) = Len(Positions)
+                                  /\ \A i \in DOMAIN Positions :
+                                        /\ sel(i)[2] = "center" => LFinite(d.alimbs[i][1]) /\ LApproxRat(d.alimbs[i][1], b[1] + b[3], 2 * dc.tq)
+                                        /\ sel(i)[1] = "center" => LFinite(d.alimbs[i][2]) /\ LApproxRat(d.alimbs[i][2], b[2] + b[4], 2 * dc.fq)
+
+Clauses == DecClauses \cup {"NoRaise", "BoundsExact", "ShapelyKind", "ShapelyCoords", "FeaturesPresent", "FeatureValues",
             "AnchorExact", "CentroidInside", "SurfaceInside",
             "Drift/Shape", "Drift/Features"}   \* not verdicts: the code still is what Impl transcribes (reported as MODEL-DRIFT)
 Inside(p, b) == LIn(p[1], b[1], b[3]) /\ LIn(p[2], b[2] * HZ, b[4] * HZ)
@@ -154,5 +199,8 @@ HoldsG(cl, g, R) ==
         [] cl = "CentroidInside" -> Inside(r.centroid, b)
         [] cl = "SurfaceInside"  -> Inside(r.surface, b)
 Holds(cl, o) == /\ Len(o.out.steps) = Len(o.in.gs)
-                /\ \A i \in DOMAIN o.in.gs : HoldsG(cl, o.in.gs[i], o.out.steps[i].runs)
+                /\ \A i \in DOMAIN o.in.gs :
+                      IF cl \in DecClauses
+                      THEN \A j \in DOMAIN o.out.steps[i].dec : HoldsD(cl, o.in.gs[i], o.in.dec[1], o.out.steps[i].dec[j])
+                      ELSE HoldsG(cl, o.in.gs[i], o.out.steps[i].runs)
 =============================================================================
